@@ -4,15 +4,14 @@
 (* under the cooperative scheduler must be behaviours of UnionFindAbs.     *)
 (*                                                                         *)
 (* TraceData (generated module TraceDataModule) is a sequence of events in *)
-(* the order the scheduler produced them:                                  *)
-(*   [e |-> "reset", job |-> j]                a new history (fresh object)*)
-(*   [e |-> "call", t, op, a, b]               client t calls op(a, b)     *)
-(*   [e |-> "ret", t, r]                       that call returns r         *)
-(*   [e |-> "st", par, rk]                     the real parent / rank      *)
-(*                                             arrays after a step that    *)
-(*                                             changed them                *)
-(*   [e |-> "final", par]                      all threads joined          *)
-(*   [e |-> "end"]                             end of the batch            *)
+(* the order the scheduler produced them (tuples, kind first):             *)
+(*   <<"reset", j>>                 a new history j (fresh object)         *)
+(*   <<"call", t, op, a, b>>        client t calls op(a, b)                *)
+(*   <<"ret", t, r>>                that call returns r                    *)
+(*   <<"st", par, rk>>              the real parent / rank arrays after a  *)
+(*                                  step that changed them                 *)
+(*   <<"final", par>>               all threads finished                   *)
+(*   <<"end">>                      end of the batch                       *)
 (*                                                                         *)
 (* The silent Lin steps of UnionFindAbs are not in the trace, so the spec   *)
 (* tracks the SET S of abstract states the history may be in: an event     *)
@@ -22,9 +21,9 @@
 (*   "st"    is explained iff the observed parent array is acyclic;         *)
 (*   "final" iff nobody is pending, the array is acyclic and represents     *)
 (*           exactly the closure of the requested unions.                   *)
-(* So that one TLC run judges a whole batch, a rejection is recorded in     *)
-(* `rej` ([job, at, why, sig]) and the rest of that history is skipped; the *)
-(* batch is accepted iff rej is empty at "end" (printed as JSON).           *)
+(* So that one TLC run judges a whole batch, a rejection is printed as a    *)
+(* JSON line [job, at, why, sig] and the rest of that history is skipped;   *)
+(* "end" prints the number of rejections (the batch was read to the end).   *)
 (*                                                                         *)
 (* sig (only for why = "cycle"): the link that closed the cycle made a      *)
 (* root x the child of a node y that is no longer a root and whose rank     *)
@@ -40,55 +39,59 @@ VARIABLES l,        \* next event
           dead,     \* the current history has been rejected
           ppar, prk,\* last observed arrays
           ow,       \* nodes whose rank field changed in the step that linked them
-          rej       \* rejections so far
+          rej       \* number of rejections so far
 tvars == <<l, S, req, job, dead, ppar, prk, ow, rej, part, pend>>
 
 Ev == TraceData[l]
+Kind == Ev[1]
+EvT == Ev[2]                    \* call / ret: the client
+EvPar == Ev[2]                  \* st / final: the parent array
+EvRk == Ev[3]                   \* st: the rank array
 Ident == [i \in 1..N |-> i - 1]
 Zero == [i \in 1..N |-> 0]
+\* every state reachable from s by silent Lin steps (at most 3 calls are pending: <= 16 orders)
 RECURSIVE LinStar(_)
-LinStar(SS) == LET nx == SS \cup {LinS(s[1], s[2]) : s \in {q \in SS \X Clients : CanLin(q[1], q[2])}}
-               IN IF nx = SS THEN SS ELSE LinStar(nx)
+LinStar(s) == {s} \cup UNION {LinStar(LinS(s, c)) : c \in {d \in Clients : CanLin(s, d)}}
 
-Succ(s) == CASE Ev.e = "call" -> IF CanCall(s, Ev.t, Ev.op, Ev.a, Ev.b) THEN {CallS(s, Ev.t, Ev.op, Ev.a, Ev.b)} ELSE {}
-             [] Ev.e = "ret" -> {RetS(q, Ev.t) : q \in {z \in LinStar({s}) : RetOK(z, Ev.t, Ev.r)}}
-             [] Ev.e = "st" -> IF AcyclicP(Ev.par) THEN {s} ELSE {}
-             [] Ev.e = "final" -> IF AllIdle(s) /\ AcyclicP(Ev.par) /\ RepresentsP(Ev.par, ClosureRep(req)) /\ s.part = ClosureRep(req)
+Succ(s) == CASE Kind = "call" -> IF CanCall(s, EvT, Ev[3], Ev[4], Ev[5]) THEN {CallS(s, EvT, Ev[3], Ev[4], Ev[5])} ELSE {}
+             [] Kind = "ret" -> {RetS(q, EvT) : q \in {z \in LinStar(s) : RetOK(z, EvT, Ev[3])}}
+             [] Kind = "st" -> IF AcyclicP(EvPar) THEN {s} ELSE {}
+             [] Kind = "final" -> IF AllIdle(s) /\ AcyclicP(EvPar) /\ RepresentsP(EvPar, ClosureRep(req)) /\ s.part = ClosureRep(req)
                                     THEN {s} ELSE {}
              [] OTHER -> {s}
-Why == CASE Ev.e = "st" -> "cycle"
-         [] Ev.e = "final" -> IF ~AcyclicP(Ev.par) THEN "cycle"
+Why == CASE Kind = "st" -> "cycle"
+         [] Kind = "final" -> IF ~AcyclicP(EvPar) THEN "cycle"
                               ELSE IF \E s \in S : ~AllIdle(s) THEN "pending call at the end"
                               ELSE "final partition is not the closure of the requested unions"
-         [] Ev.e = "ret" -> "answer not correct at any instant of the call"
+         [] Kind = "ret" -> "answer not correct at any instant of the call"
          [] OTHER -> "malformed history"
 \* nodes that stopped being roots in the step leading to the observed array
 Linked(par) == {n \in Node : ppar[n + 1] = n /\ par[n + 1] # n}
-Sig == Ev.e = "st" /\ AcyclicP(ppar) /\ \E n \in Linked(Ev.par) : Ev.par[n + 1] \in ow /\ ppar[Ev.par[n + 1] + 1] # Ev.par[n + 1]
+Sig == Kind = "st" /\ AcyclicP(ppar) /\ \E n \in Linked(EvPar) : EvPar[n + 1] \in ow /\ ppar[EvPar[n + 1] + 1] # EvPar[n + 1]
 
-TInit == /\ l = 1 /\ S = {InitS} /\ req = {} /\ job = 0 /\ dead = FALSE /\ ppar = Ident /\ prk = Zero /\ ow = {} /\ rej = <<>>
+TInit == /\ l = 1 /\ S = {InitS} /\ req = {} /\ job = 0 /\ dead = FALSE /\ ppar = Ident /\ prk = Zero /\ ow = {} /\ rej = 0
          /\ part = InitS.part /\ pend = InitS.pend      \* variables of UnionFindAbs: unused here (S holds the state set)
 TNext == /\ l <= Len(TraceData)
          /\ l' = l + 1
          /\ UNCHANGED <<part, pend>>
-         /\ IF Ev.e = "reset"
-              THEN /\ S' = {InitS} /\ req' = {} /\ job' = Ev.job /\ dead' = FALSE /\ ppar' = Ident /\ prk' = Zero /\ ow' = {}
+         /\ IF Kind = "reset"
+              THEN /\ S' = {InitS} /\ req' = {} /\ job' = Ev[2] /\ dead' = FALSE /\ ppar' = Ident /\ prk' = Zero /\ ow' = {}
                    /\ rej' = rej
-              ELSE IF Ev.e = "end"
-              THEN /\ PrintT(ToJson([rejected |-> rej]))
+              ELSE IF Kind = "end"
+              THEN /\ PrintT(ToJson([done |-> rej]))
                    /\ UNCHANGED <<S, req, job, dead, ppar, prk, ow, rej>>
               ELSE IF dead
               THEN UNCHANGED <<S, req, job, dead, ppar, prk, ow, rej>>
               ELSE LET nS == UNION {Succ(s) : s \in S} IN
-                   /\ req' = IF Ev.e = "call" /\ Ev.op = "u" THEN req \cup {<<Ev.a, Ev.b>>} ELSE req
-                   /\ IF Ev.e = "st"
-                        THEN /\ ppar' = Ev.par /\ prk' = Ev.rk
-                             /\ ow' = ow \cup {n \in Linked(Ev.par) : Ev.rk[n + 1] # prk[n + 1]}
+                   /\ req' = IF Kind = "call" /\ Ev[3] = "u" THEN req \cup {<<Ev[4], Ev[5]>>} ELSE req
+                   /\ IF Kind = "st"
+                        THEN /\ ppar' = EvPar /\ prk' = EvRk
+                             /\ ow' = ow \cup {n \in Linked(EvPar) : EvRk[n + 1] # prk[n + 1]}
                         ELSE UNCHANGED <<ppar, prk, ow>>
                    /\ job' = job
                    /\ IF nS = {}
-                        THEN /\ dead' = TRUE /\ S' = S
-                             /\ rej' = Append(rej, [job |-> job, at |-> l, why |-> Why, sig |-> Sig])
+                        THEN /\ dead' = TRUE /\ S' = S /\ rej' = rej + 1
+                             /\ PrintT(ToJson([job |-> job, at |-> l, why |-> Why, sig |-> Sig]))
                         ELSE /\ dead' = FALSE /\ S' = nS /\ rej' = rej
 TSpec == TInit /\ [][TNext]_tvars
 Accepted == TLCGet("stats").diameter - 1 = Len(TraceData)
